@@ -1,5 +1,6 @@
 import StunVerif.Props.C20
 import StunVerif.Props.SrcFnAgent
+import StunVerif.Props.SrcFnPoll
 #print axioms StunVerif.C20.step_shift
 #print axioms StunVerif.C20.shift_equivariant
 #print axioms StunVerif.C20.independent_agents
@@ -17,3 +18,17 @@ import StunVerif.Props.SrcFnAgent
 #print axioms StunVerif.SrcFnAgent.src_cancelRetransmissions
 #print axioms StunVerif.SrcFnAgent.foldl_add_eq_sum
 #print axioms StunVerif.SrcFnAgent.src_configureTimeout
+#print axioms StunVerif.SrcFnPoll.lookup_some_mem
+#print axioms StunVerif.SrcFnPoll.update_same
+#print axioms StunVerif.SrcFnPoll.remove_update
+#print axioms StunVerif.SrcFnPoll.idle_eq
+#print axioms StunVerif.SrcFnPoll.loop_nil
+#print axioms StunVerif.SrcFnPoll.loop_absent
+#print axioms StunVerif.SrcFnPoll.loop_wait
+#print axioms StunVerif.SrcFnPoll.loop_ready
+#print axioms StunVerif.SrcFnPoll.loop_all_waiting
+#print axioms StunVerif.SrcFnPoll.loop_first_ready
+#print axioms StunVerif.SrcFnPoll.not_ready_waiting
+#print axioms StunVerif.SrcFnPoll.foldl_congr_mem
+#print axioms StunVerif.SrcFnPoll.minWait_as_map
+#print axioms StunVerif.SrcFnPoll.src_agentPoll
